@@ -176,6 +176,9 @@ def flip(t, dim):
     :return: another :class:`Tensor` of the same shape
     """
 
+    if t.batch:
+        raise ValueError("Batched tensors are not supported.")
+
     if not hasattr(dim, "__len__"):
         dim = [dim]
 
